@@ -696,7 +696,11 @@ class Ref:
             return numpy.mod(C(0), d)
         if op == 'floordiv':
             return numpy.floor_divide(C(0), abs(C(1)) + 1)
-        if op == 'arctan2': return numpy.arctan2(C(0), C(1))
+        if op == 'arctan2':
+            a, b = C(0), C(1)
+            if ((a == 0) & (b <= 0)).any():
+                raise NonFinite('arctan2 on its branch cut (depends on the sign of zero)')
+            return numpy.arctan2(a, b)
         if op == 'pow': return numpy.power(abs(C(0)) + .5, C(1))
         if op == 'guard': return C(0)
         if op == 'abs': return numpy.abs(C(0))
@@ -707,7 +711,10 @@ class Ref:
         if op == 'less': return numpy.less(C(0), C(1))
         if op == 'equal': return numpy.equal(C(0), C(1))
         if op == 'powc':
-            return numpy.power(C(0), NPDT[dtype](p['e']))
+            a = C(0)
+            if dtype == 'complex' and p['e'] != int(p['e']) and ((a.imag == 0) & (a.real <= 0)).any():
+                raise NonFinite('complex power on its branch cut (depends on the sign of zero)')
+            return numpy.power(a, NPDT[dtype](p['e']))
         if op == 'powi':
             return numpy.power(C(0), p['e'])
         if op == 'unary':
@@ -716,7 +723,10 @@ class Ref:
             if f == 'arcsin_t': return numpy.arcsin(numpy.tanh(x))
             if f == 'arccos_t': return numpy.arccos(numpy.tanh(x))
             if f == 'arctanh_t': return numpy.arctanh(numpy.tanh(x) * .5)
-            if f == 'arctan_h': return numpy.arctan(x * .25)
+            if f == 'arctan_h':
+                if ((x.real == 0) & (abs(x.imag) >= 4)).any():
+                    raise NonFinite('arctan on its branch cut')
+                return numpy.arctan(x * .25)
             if f == 'sqrtabs': return numpy.sqrt(abs(x))
             if f == 'recip_s': return 1 / (abs(x) + .5)
             if f == 'sinc': return numpy.sinc(x / numpy.pi)
